@@ -178,6 +178,29 @@ package snowflake_client
 //@   at call Remove assert {each-peer-is-closed-before-it-is-dropped} calls(Close) == calls(Remove) + 1 && arg1 == e
 //@   ensures {each-dropped-peer-was-closed} calls(Close) == calls(Remove)
 //
+// ---- closing one peer (C15: "closes every peer it holds"): Close is idempotent and, the first time, marks the peer
+// closed and releases everything the peer holds - its side of the pipe, the data channel and the peer connection.
+//@ func (c *WebRTCPeer) Close() (err error)
+//@   props C15
+//@   flag nosafety safety-close
+//@   requires c != nil
+//@   assumes c.closed != nil && (oncedone(&c.once) <==> closed(c.closed))
+//@   ensures {closed-afterwards} closed(c.closed) && oncedone(&c.once)
+//@   ensures {marks-closed-at-most-once} closes(c.closed) == old(closes(c.closed)) + ite(old(closed(c.closed)), 0, 1)
+//
+// (the body of the Once: runs at most once, with the peer still open)
+//@ func (c *WebRTCPeer) Close$1()
+//@   props C15
+//@   flag nosafety safety-close
+//@   assumes c != nil && c.closed != nil && !closed(c.closed)
+//@   ensures {first-close-marks-closed-and-releases-the-parts} closed(c.closed) && calls(cleanup) == 1
+//
+//@ func (c *WebRTCPeer) cleanup()
+//@   props C15
+//@   flag nosafety
+//@   requires c != nil
+//@   ensures {releases-pipe-data-channel-and-peer-connection} calls(Close) == ite(old(c.writePipe) != nil, 1, 0) + ite(old(c.transport) != nil, 1, 0) + ite(old(c.pc) != nil, 1, 0)
+//
 // ---- closing the connection (C15): whatever the stream, the packet connection or the session answer to their own
 // Close (a session that died earlier reports an error), Close ends the collection of peers - which closes every peer
 // held and stops the rendezvous loop - and releases all four parts, every time it is called.
